@@ -51,7 +51,7 @@ def _build_sources(spec, world, make):
         # the lazy outer iterable of chain.from_iterable delivers the member objects of this world
         from .actors import SrcPlan
         plan = SrcPlan(outer.name, [s.obj for s in srcs], outer.flavour, outer.suspend,
-                       outer.aclose_suspends, aclose_mode=outer.aclose_mode)
+                       outer.aclose_suspends, aclose_mode=outer.aclose_mode, falsy=outer.falsy)
         srcs.append(make(world, plan))
     return srcs
 
